@@ -465,15 +465,21 @@ def generators(chk, prog):
             others = all(cc.leaf_term(ch.fields[k]) is tm.sym("ay.channels[%d].%s" % (i, f["name"]), cc.leaf_term(ch.fields[k]).bits)
                          for k, f in enumerate(prog.adt(TC)["variants"][0]["fields"])
                          if f["name"] not in ("tone_counter", "tone") and cc.leaf_term(ch.fields[k]) is not None)
+            # the level is a bit (it starts at 0 and this function is its only writer): compared for the values 0 and 1
+            def eq01(x, want):
+                return isinstance(x, T) and all(_eq(tm.subst(x, {Tn: K(v, Tn.bits)}), tm.subst(want, {Tn: K(v, Tn.bits)})) for v in (0, 1))
             if hit:
-                ok = _eq(c2, zero(C)) and _eq(t2, tm.binop("xor", Tn, one)) and _eq(r.ret, tm.binop("xor", Tn, one))
+                ok = _eq(c2, zero(C)) and eq01(t2, tm.binop("xor", Tn, one)) and eq01(r.ret, tm.binop("xor", Tn, one))
             else:
-                ok = _eq(c2, inc(C)) and _eq(t2, Tn) and _eq(r.ret, Tn)
+                ok = _eq(c2, inc(C)) and eq01(t2, Tn) and eq01(r.ret, Tn)
             chk.check(ok and others, key + ("/toggle" if hit else "/count"),
                       "tone channel %d, counter+1 %s period: counter -> %s, level -> %s, output %s; documented %s" % (
                           i, ">=" if hit else "<", c2, t2, r.ret, "restart at 0 and toggle" if hit else "count up, level kept"))
             chk.count("generator-rows")
         chk.check(seen == {True, False}, key + "/cases", "tone generator cases %s" % seen)
+    cg_, fa_s = cc.scans(prog)
+    wt = set(p_.split("::")[-1] for p_ in fa_s.writers(TC, "tone"))
+    chk.check(wt <= {"update_tone", "default", "new"}, "T-WRITERS/ToneChannel.tone", "the tone level is written by %s (the generator rule treats it as a bit owned by update_tone)" % sorted(wt))
     # ---- noise
     key = "T-TABLE/AymPrecise::update_noise"
     w, rs = _ay_walk(prog, "update_noise", [])
